@@ -264,9 +264,9 @@ fn run_case(rep: &Report, ch: &mut Chooser, fmt: &'static str, thorough: bool, l
 
 pub fn check(rep: &Report) {
     let t = crate::thorough(&rep.tier);
-    rep.rule("(a) every source over {a,b} of length 1..8 (thorough 10) x every valid tokenisation (literal or any legal copy token at each position) through the real decompressor; for every position p in 1..4095 a chunk whose decompressed prefix has length p followed by copy tokens with offset in {1, p, p/2, 2^(bits-1)} and length in {3, 4, maximum for the bit split}; sources of 0..20000 bytes (low/high/mixed redundancy) compressed greedy / literal-only / raw, 1-5 chunks; (b) project layouts: 0-3 modules x source length x text offset {0,5,1000} x compression mode x stream name != module name x class/readonly/private records x 0-3 references of 5 kinds x compat-version record x code page (thorough: 932) x CFB layout, embedded in xlsm, xlsb and xls; <= 2 (thorough 3) deviations; non-trivial = uses a copy token / non-default layout");
+    rep.rule("(a) every source over {a,b} of length 1..8 (thorough 12) x every valid tokenisation (literal or any legal copy token at each position) through the real decompressor; for every position p in 1..4095 a chunk whose decompressed prefix has length p followed by copy tokens with offset in {1, p, p/2, 2^(bits-1)} and length in {3, 4, maximum for the bit split}; sources of 0..20000 bytes (low/high/mixed redundancy) compressed greedy / literal-only / raw, 1-5 chunks; (b) project layouts: 0-3 modules x source length x text offset {0,5,1000} x compression mode x stream name != module name x class/readonly/private records x 0-3 references of 5 kinds x compat-version record x code page (thorough: 932) x CFB layout, embedded in xlsm, xlsb and xls; <= 2 (thorough 3) deviations; non-trivial = uses a copy token / non-default layout");
     rep.assume("MODULENAMEUNICODE and the other optional unicode records are always written; library ids are well-formed (at least two '#')");
-    sweep_tokenisations(rep, if t { 10 } else { 8 });
+    sweep_tokenisations(rep, if t { 12 } else { 8 });
     sweep_positions(rep);
     sweep_chunks(rep);
     let stats = Mutex::new(Stats::default());
